@@ -3,15 +3,15 @@ Require Import Value Bytes Aes Modes KeyWrap Crc CryptoProofs FlashEncModel Flas
 Import ListNotations.
 Local Open Scope Z_scope.
 
-(* C13, OTFAD: the ciphertext depends only on (key blobs, absolute address, plaintext): an image cut at a multiple of
-   1 KiB and encrypted in two calls at the two addresses gives the bytes of one call. *)
+(* C13, OTFAD: the ciphertext depends only on (key blobs, absolute address, plaintext): an image cut anywhere on the
+   absolute 1 KiB grid and encrypted in two calls at the two addresses gives the bytes of one call, for every base. *)
 Theorem otfad_address_only :
-  forall (E : cipher) (blobs : list kblob) (swap : bool) (base : Z) (x y : list N) (q : nat),
-  length x = (q * 1024)%nat ->
+  forall (E : cipher) (blobs : list kblob) (swap : bool) (base : Z) (x y : list N),
+  (base + zlen x) mod 1024 = 0 ->
   otfad_encrypt_image E blobs (x ++ y) base swap =
   match otfad_encrypt_image E blobs x base swap with
   | Ok cx => match otfad_encrypt_image E blobs y (base + zlen x) swap with Ok cy => Ok (cx ++ cy) | Err k => Err k end
   | Err k => Err k
   end.
-Proof. intros E blobs swap base x y q H. now apply (otfad_address_only_l E blobs swap base x y q). Qed.
+Proof. intros E blobs swap base x y H. now apply otfad_address_only_l. Qed.
 Print Assumptions otfad_address_only.
